@@ -494,3 +494,69 @@ def connection_error_tables(ctx, rid):
         {"name": "CidsExhausted", "atoms": [r"^error is CidsExhausted$"], "leaf": r"^return ConnectionError::CidsExhausted$"},
     ]
     match_table(ctx, rid, fn, walk(fn), rows, "From<quinn::ConnectionError>")
+
+
+# ------------------------------------------------------------------ worker accept tasks
+
+def spawned_task_tables(ctx, rid):
+    """the per-stream tasks spawned by Worker::accept_uni / accept_bi: exactly one hand-off per
+    successfully parsed stream, the object handed on is the one the preamble was read from"""
+    A = ctx.A
+    fn = A.find1(r"^wtransport::driver::worker::Worker::accept_uni::\{closure#0\}::\{closure#0\}$")
+    UP = r"await\(<impl .*?UniRemote, Quic>>>::upgrade\(stream_quic\)\)"
+    rows = [
+        {"name": "WebTransport stream->wt queue (same stream, upgraded)", "atoms": [r"^%s is Ok$" % UP, r"::kind\(&\(%s as Ok\)\.0\) is WebTransport$" % UP],
+         "events": [r"^OwnedPermit::send\(wt_slot,<impl .*?UniRemote, H3>>>::upgrade\(\(%s as Ok\)\.0\)\)$" % UP], "not_events": [r"^OwnedPermit::send\(h3_slot"], "leaf": r"^return \(\)$"},
+        {"name": "H3 stream->h3 queue (same stream)", "atoms": [r"^%s is Ok$" % UP, r"::kind\(&\(%s as Ok\)\.0\) isnot WebTransport$" % UP],
+         "events": [r"^OwnedPermit::send\(h3_slot,Result::Ok\(\(%s as Ok\)\.0\)\)$" % UP], "not_events": [r"^OwnedPermit::send\(wt_slot"], "leaf": r"^return \(\)$"},
+        {"name": "H3 error->reported to worker", "atoms": [r"^\(%s as Err\)\.0 is H3$" % UP],
+         "events": [r"^OwnedPermit::send\(h3_slot,Result::Err\(DriverError::Proto\(\(\(%s as Err\)\.0 as H3\)\.0\)\)\)$" % UP], "leaf": r"^return \(\)$"},
+        {"name": "IO error->stream dropped silently", "atoms": [r"^\(%s as Err\)\.0 is IO$" % UP], "not_events": [r"OwnedPermit::send"], "leaf": r"^return \(\)$"},
+    ]
+    match_table(ctx, rid, fn, walk(fn), rows, "accept_uni task")
+    fn = A.find1(r"^wtransport::driver::worker::Worker::accept_bi::\{closure#0\}::\{closure#0\}$")
+    H3S = r"<impl .*?BiRemote, Quic>>>::upgrade\(stream_quic\)"
+    RF = r"await\(<impl .*?BiRemote, H3>>>::read_frame\(&%s\)\)" % H3S
+    rows = [
+        {"name": "GREASE frame->keep reading", "atoms": [r"^Frame::kind\(&\(%s as Ok\)\.0\) is Exercise$" % RF], "not_events": [r"OwnedPermit::send"], "leaf": r"^continue$"},
+        {"name": "WT signal->wt queue (same stream, session id of the frame)", "atoms": [r"^Frame::session_id\(&\(%s as Ok\)\.0\) is Some$" % RF],
+         "events": [r"^OwnedPermit::send\(wt_slot,<impl .*?BiRemote, H3>>>::upgrade\(%s,\(Frame::session_id\(&\(%s as Ok\)\.0\) as Some\)\.0\)\)$" % (H3S, RF)],
+         "not_events": [r"^OwnedPermit::send\(h3_slot"], "leaf": r"^return \(\)$"},
+        {"name": "other first frame->h3 queue with the frame", "atoms": [r"^Frame::session_id\(&\(%s as Ok\)\.0\) is None$" % RF],
+         "events": [r"^OwnedPermit::send\(h3_slot,Result::Ok\(\(%s,\(%s as Ok\)\.0\)\)\)$" % (H3S, RF)], "not_events": [r"^OwnedPermit::send\(wt_slot"], "leaf": r"^return \(\)$"},
+        {"name": "H3 error->reported to worker", "atoms": [r"^\(%s as Err\)\.0 is H3$" % RF],
+         "events": [r"^OwnedPermit::send\(h3_slot,Result::Err\(DriverError::Proto\(\(\(%s as Err\)\.0 as H3\)\.0\)\)\)$" % RF], "leaf": r"^return \(\)$"},
+        {"name": "IO error->stream dropped silently", "atoms": [r"^\(%s as Err\)\.0 is IO$" % RF], "not_events": [r"OwnedPermit::send"], "leaf": r"^return \(\)$"},
+    ]
+    match_table(ctx, rid, fn, walk(fn), rows, "accept_bi task")
+
+
+def permit_before_pull(ctx, rid):
+    """Worker::accept_uni/accept_bi/accept_datagram: the item is pulled from quinn only after a slot
+    has been reserved on every queue it can be routed to"""
+    A = ctx.A
+    for name, pull, nres in (("accept_uni", r"^<impl .*?UniRemote, Quic>>>::accept_uni\(", 2),
+                             ("accept_bi", r"^<impl .*?BiRemote, Quic>>>::accept_bi\(", 2),
+                             ("accept_datagram", r"^Connection::read_datagram\(", 1)):
+        fn = A.find1(r"^wtransport::driver::worker::Worker::%s::\{closure#0\}$" % name)
+        paths = nonpanic(walk(fn))
+        n = 0
+        bad = []
+        for p in paths:
+            evs = event_strs(p)
+            idx = [i for i, e in enumerate(evs) if re.search(pull, e)]
+            if not idx:
+                continue
+            n += 1
+            before = evs[:idx[0]]
+            res = [e for e in before if re.match(r"^await Sender::reserve(_owned)?\(", e)]
+            if len(res) != nres:
+                bad.append(before)
+            # and the reservations succeeded on this path
+            atoms = path_sig(p)[0]
+            okres = [a for a in atoms if re.search(r"Sender::reserve(_owned)?\(.*\) is Ok$", a)] + \
+                    [e for e in before if re.match(r"^Result::expect\(await\(Sender::reserve", e)]
+            if len(okres) < nres:
+                bad.append(atoms)
+        ctx.check(rid, "Worker::%s permit-before-pull" % name, n > 0 and not bad,
+                  "Worker::%s pulls from quinn without %d successful reservation(s) before it: %s" % (name, nres, bad[:2]), where(fn))
